@@ -12,12 +12,51 @@ EXPLANATION = (
 DECIDED = ["R08c properties are removed with the element",
            "R09a missing-key error only for explicitly named elements; keys select values_by_keys (DOM)",
            "R09b insert_or_replace: replace-in-place on found key, append otherwise (MUST)",
-           "R09c remove_value removes exactly the found pair in place (no swap)"]
+           "R09c remove_value removes exactly the found pair in place (no swap)",
+           "R09d insert_or_replace reports None only after an insertion and Some(old) only after a replacement (DOM)"]
 UNDECIDED = ["order and content of returned pairs over histories (needs execution)"]
 
 KV = "agdb::db::db_key_value::DbKeyValues::"
 DB = "agdb::db::DbImpl::"
 SV = "<agdb::query::select_values_query::SelectValuesQuery as agdb::query::Query>::process"
+
+
+def insert_or_replace_contract_rule(ctx, rule="R09d"):
+    """DbKeyValues::insert_or_replace tells its caller what happened: `Ok(Some(old))` = an existing pair was replaced,
+    `Ok(None)` = the pair was newly inserted.  DbImpl::insert_or_replace_key_value chooses the index update and the undo
+    command by it.  So every `Ok(None)` return must lie behind an insertion (insert_value / push) and every `Ok(Some(_))`
+    behind `replace`: a `None` without an insertion (e.g. "same value, nothing to do") makes the caller index the pair
+    twice and record RemoveKeyValue instead of ReplaceKeyValue."""
+    b = ctx.anchor(rule, KV + "insert_or_replace")
+    if not b:
+        return
+    ins = [i for i, t in cfg.calls(b) if common.norm(cfg.callee(t) or "") in (KV + "insert_value",) or
+           common.norm(cfg.callee(t) or "").endswith(("VecImpl::push", "DbVec::push"))]
+    rep = [i for i, t in cfg.calls(b) if common.norm(cfg.callee(t) or "").endswith(("VecImpl::replace", "DbVec::replace"))]
+    nones, somes = [], []
+    for bi, st in cfg.assigns(b):
+        r = st["r"]
+        if st["l"] == [0] and r["k"] == "agg" and r.get("variant") == "Ok" and r["ops"]:
+            pl = cfg.op_place(r["ops"][0])
+            ds = [d for d in cfg.defs(b).get(pl[0], []) if d[0] == "assign" and d[2]["k"] == "agg"] if pl else []
+            vs = {d[2].get("variant") for d in ds}
+            if vs == {"None"}:
+                nones.append(bi)
+            elif vs == {"Some"}:
+                somes.append(bi)
+            else:
+                nones.append(bi)
+                somes.append(bi)
+    ok_n = bool(nones and ins) and all(cfg.find_path(b, [0], [x], avoid=ins) is None for x in nones)
+    ok_s = bool(somes and rep) and all(cfg.find_path(b, [0], [x], avoid=rep) is None for x in somes)
+    ctx.ob(rule, "insert_or_replace:None=>inserted", ok_n,
+           "every Ok(None) lies behind insert_value / push" if ok_n else
+           "DbKeyValues::insert_or_replace can return Ok(None) without having inserted the pair (returns at %s): the "
+           "caller treats None as `newly inserted` (second index entry, RemoveKeyValue undo)" % [b.loc(x) for x in nones
+                                                                                              if cfg.find_path(b, [0], [x], avoid=ins) is not None], b.where)
+    ctx.ob(rule, "insert_or_replace:Some=>replaced", ok_s,
+           "every Ok(Some(old)) lies behind replace" if ok_s else
+           "DbKeyValues::insert_or_replace can return Ok(Some(_)) without replacing the stored pair", b.where)
 
 
 def run(ctx):
@@ -100,4 +139,5 @@ def run(ctx):
         ctx.ob("R09b", "DbKeyValues::insert_or_replace", ok,
                "found key => DbVec::replace at its position (no push); otherwise push; new element => insert_value" if ok else
                "insert_or_replace no longer replaces an existing key in place / appends a new key", b.where)
+    insert_or_replace_contract_rule(ctx)
     return 0
